@@ -24,6 +24,7 @@ var Registry = map[string]func(p *load.Prog, r *oblig.Run){
 	"C14": C14,
 	"C15": C15,
 	"C16": C16,
+	"C17": C17,
 	"C18": C18,
 	"C19": C19,
 }
